@@ -286,7 +286,8 @@ def gen_program(rng, mapping_name="low_rom", depth=0, allow_moves=True, labels=N
     """Random program tree.  Label names are unique per program except deliberately re-used short names in inner scopes."""
     labels = labels if labels is not None else {"n": 0}
     prog = []
-    starts = {"low_rom": [0x008000, 0x00FFF0, 0x018000, 0x02FFFD, 0x808000, 0x81FFFE], "high_rom": [0xC00000, 0xC0FFF8, 0xC10000, 0x400000, 0x41FFFE]}[mapping_name]
+    starts = {"low_rom": [0x008000, 0x00FFF0, 0x018000, 0x02FFFD, 0x808000, 0x81FFFE, 0x3FFFFC, 0x408000, 0x6F8000, 0xBFFFFE, 0xC08000, 0xCFFF00],
+              "high_rom": [0xC00000, 0xC0FFF8, 0xC10000, 0x400000, 0x41FFFE, 0x7D0000, 0x7DFF00, 0xFF0000, 0xFFFF00, 0x5FFFFD]}[mapping_name]
     ram = [0x7E2000, 0x7F0100]
     if depth == 0:
         prog.append(("star", rng.choice(starts)))
